@@ -12,6 +12,29 @@ CLAIMED = {
             "clause is measured against a 60-digit reference (partial).",
             "Float accuracy clause measured not proved; numpy pow/log trusted to 1e-12*scale of libm; known finding C12-cancellation.",
             "DESIGN §6 C12"),
+    "C14": ("Lean 4 proof over ℝ (monotonicity, mutual inverse, HasDerivAt of the turn-off function = both hand-derived sweep speeds) "
+            "on the expressions the translator extracts from the source + kernel check of the 20 coefficient rows + correspondence",
+            "Theorem C14_holds is about Generated.tms_main/tms_bh/mto_*/dmdt_sev/dmdt_bh, i.e. the expressions in the source now; "
+            "msto_rows_coeffs (decide +kernel on the regenerated table) discharges the sign hypotheses for every packaged row.",
+            "Float evaluation trusted to 1e-12*scale; rate clause observed on the real derivative functions vs central differences.",
+            "DESIGN §6 C14"),
+    "C07": ("Lean 4 proof by list induction (exact budget, heaviest-first shape, mean preserved, non-negativity, definedness, "
+            "over-ejection error, row-level budget with kicks) + Float-driver correspondence on arrays and real constructions",
+            "Theorem C07_holds covers every bin count and content, every budget and retention fraction; model tied to the code by running "
+            "both on the same arrays (20k/400k per run) and on real constructions vs their full-retention twins.",
+            "Model of the loop hand-written (correspondence-checked); kick retention enters through the KicksLaw hypothesis proved in C15.",
+            "DESIGN §6 C07"),
+    "C08": ("Lean 4 proof (closed-form removal on the generated Mrem, loop invariant by list induction: fraction met exactly, shape, "
+            "non-negativity, infeasible target unchanged) + correspondence + real EvolvedMFWithBH constructions",
+            "Theorem C08_partial for every bin list / total / target; strict-mode error, identical stars and reported retention are decided "
+            "by the sweep on real constructions (partial).",
+            "Row-level glue (strict flag, per-age target index) checked on real constructions, not proved.",
+            "DESIGN §6 C08"),
+    "C15": ("Lean 4 proof (erf from the Gaussian integral; Maxwellian CDF′ = generated pdf, = ∫pdf, monotone, in [0,1]; sigmoid in [0,1]; "
+            "per-bin bookkeeping by list induction) + correspondence of every kicks.py routine",
+            "Theorem C15_holds; the real retention routine is compared with the closed-form CDF (after fix: it *is* the closed form).",
+            "scipy erf / interp1d trusted; fallback tables taken as data with range check.",
+            "DESIGN §6 C15"),
 }
 
 NOT_YET = "check not built yet in this session (planned: see DESIGN §6); not claimed until its quick check is silent on the clean tree"
